@@ -13,6 +13,11 @@ def WITS(n):
     for ch, k in (("\\u{e9}", 2), ("\\u{20ac}", 3), ("\\u{1f600}", 4)):
         for j in range(1, k):
             out.append('"a".repeat(%d) + "%s" + &"b".repeat(16)' % (n - j, ch))
+    # and texts that are longer than n BYTES but have fewer than n CHARACTERS (a cut computed in characters must not be used as a byte offset)
+    for ch, k in (("\\u{e9}", 2), ("\\u{20ac}", 3), ("\\u{1f600}", 4)):
+        for pre in range(0, k):
+            if (n - pre) % k != 0:
+                out.append('"a".repeat(%d) + &"%s".repeat(%d)' % (pre, ch, n // k + 4))
     return "vec![%s]" % ", ".join(out)
 
 TEST_EVENT = '''
